@@ -95,8 +95,16 @@ func muxHarness(rc *RunCtx) {
 	tp := rc.Tape
 	nCallers := 1 + tp.Biased("cfg", rc.Scale(6, 10))
 	perCaller := 1 + tp.Biased("cfg", rc.Scale(3, 6))
+	crowd := tp.Intn("cfg", 12) == 0
+	if crowd {
+		// many requests outstanding at once on one transport
+		nCallers, perCaller = 34+tp.Intn("cfg", 16), 1
+	}
 	rc.AllowStalls = true
 	s := rc.NewSim(rc.Scale(20000, 60000), 10*time.Minute)
+	if crowd {
+		rc.Probe("more-than-32-callers-on-one-transport")
+	}
 	m := &muxState{rc: rc, s: s, byTag: map[string]*muxCall{}, bySeq: map[int]*muxDelivery{}, prof: muxProfileFor(rc.Prop)}
 	rc.Sample["callers"] = nCallers
 	rc.Sample["requests_per_caller"] = perCaller
@@ -569,7 +577,8 @@ func (m *muxState) check(tr frugal.FTransport, canary *muxCall, finished bool, b
 	if n := frugal.SimRegistryLen(tr); n > 0 {
 		rc.Violate("C13", "registration-left-behind", m.kind, fmt.Sprintf("%d registrations after all calls returned", n))
 	} else if n < 0 {
-		rc.Violate("INFRA", "registry-unobservable", m.kind, "")
+		// nobody may still hold the registry's lock once every caller has returned and the transport is closed
+		rc.Violate("C06", "registry-locked-at-end", m.kind, "the registry lock is still held after all callers returned (or never returned) and the transport was closed")
 	}
 	if !finished {
 		rc.Violate("C13", "workload-stuck", m.kind, "callers did not all return within the simulated horizon")
